@@ -6,7 +6,7 @@
      Clean k                                    (kernel cleaner: one process_ccq_entry callback)
    cf = (timeouts, which handleNATEntries: pinned or repaired).  The kernel steps Clean/Packet are hand models of C code. *)
 From Coq Require Import List NArith ZArith Bool.
-From Verif.C14 Require Import Model Spec Proofs Safety Liveness Witness.
+From Verif.C14 Require Import Model Spec Proofs Safety Liveness LivenessGen Witness.
 Import ListNotations.
 Open Scope Z_scope.
 
@@ -72,6 +72,20 @@ Theorem c14_liveness_normal : forall cf s k e,
   lookup k (ct (run cf s [Judge k; Clean k])) = None.
 Proof. exact live_normal. Qed.
 Print Assumptions c14_liveness_normal.
+
+(* The same for ANY quiet schedule: starting from a state between two scans (empty pairing table), whatever scanner
+   callbacks on whatever keys, turns of the final loop, cleaner callbacks and clock ticks happen before, between and
+   after (tr1, tr2: no dataplane step, no lost queue entry), once `Judge k` has been followed by `Clean k` the idle
+   normal entry is gone. *)
+Theorem c14_liveness_normal_any_schedule : forall cf k e, e_kind e = KNormal ->
+  forall s tr1 tr2,
+  lookup k (ct s) = Some e ->
+  expired (cf_tm cf) (now_used s) (proto k) e = true ->
+  cached s <= kclock s -> lookup dummy (ct s) = None -> info s = [] ->
+  Forall quiet tr1 -> Forall quiet tr2 ->
+  lookup k (ct (run cf s (tr1 ++ Judge k :: tr2 ++ [Clean k]))) = None.
+Proof. exact live_normal_any_schedule. Qed.
+Print Assumptions c14_liveness_normal_any_schedule.
 
 Theorem c14_liveness_reverse_alone : forall cf s k e,
   lookup k (ct s) = Some e -> e_kind e = KRev -> expired (cf_tm cf) (now_used s) (proto k) e = true ->
